@@ -1,16 +1,16 @@
 #!/bin/sh
-# usage: tools/try_mutant.sh <patch.diff> <Cxx> [<Cyy> ...]   - applies the patch to /repo, runs the quick checks, ALWAYS reverts
-# prints one line per check: <id> rc=<exit> <VIOLATION lines count>
+# usage: tools/try_mutant.sh <patch.diff> <Cxx> [<Cyy> ...]
+# Applies the patch in a scratch worktree of /repo HEAD (never in /repo itself, so runs can overlap), points the
+# checks at it through PYTHONPATH, runs the quick (or $TIER) checks, removes the worktree.
+# prints one line per check: <id> rc=<exit> violations=<n> <signatures>
 P="$(readlink -f "$1")"; shift
-cd /repo || exit 9
-if [ -n "$(git status --porcelain)" ]; then echo "repo not clean"; exit 9; fi
-git apply "$P" || { echo "patch does not apply"; exit 9; }
-trap 'git -C /repo checkout -- . >/dev/null 2>&1' EXIT INT TERM
+WT=/tmp/mutwt_$$
+git -C /repo worktree add -q "$WT" HEAD || exit 9
+trap 'git -C /repo worktree remove --force "$WT" >/dev/null 2>&1; rm -rf /tmp/mut_ev_$$' EXIT INT TERM
+( cd "$WT" && git apply "$P" ) || { echo "patch does not apply"; exit 9; }
 cd /verif
-mkdir -p /tmp/mut_ev
+mkdir -p /tmp/mut_ev_$$
 for c in "$@"; do
-  cp evidence/$c.json /tmp/mut_ev/$c.json.bak 2>/dev/null
-  ./run_check.sh $c ${TIER:-quick} > /tmp/mut_ev/$c.log 2>&1; rc=$?
-  cp /tmp/mut_ev/$c.json.bak evidence/$c.json 2>/dev/null
-  echo "$c rc=$rc violations=$(grep -c '^VIOLATION' /tmp/mut_ev/$c.log) $(grep -A1 '^VIOLATION' /tmp/mut_ev/$c.log | grep signature | head -3 | tr '\n' ' ' | cut -c1-260)"
+  PYTHONPATH="$WT" VERIF_EVIDENCE_DIR=/tmp/mut_ev_$$ ./run_check.sh $c ${TIER:-quick} > /tmp/mut_ev_$$/$c.log 2>&1; rc=$?
+  echo "$c rc=$rc violations=$(grep -c '^VIOLATION' /tmp/mut_ev_$$/$c.log) $(grep -A1 '^VIOLATION' /tmp/mut_ev_$$/$c.log | grep signature | head -3 | tr '\n' ' ' | cut -c1-260)"
 done
